@@ -475,14 +475,6 @@ def _strform_as_case(case, obs):
     return dict(case, kws=[[case['dim'], {'s': list(case['sl'])}]])
 
 
-def _ioapi_region(case):
-    """known finding (region 1): an IOAPI file sliced with >= 2 zipped lists AND any selector on TSTEP — the zipped data
-    variables make updatemeta miscount NVARS, so TFLAG is REBUILT uniformly from SDATE/STIME/TSTEP instead of keeping
-    the selected rows (wrong for irregular / unsorted / repeating lists and for reversed slices)"""
-    ls = [dn for dn, s in case['kws'] if 'l' in s]
-    return 1 if case['kind'].startswith('ioapi') and len(ls) > 1 and 'TSTEP' in [dn for dn, _ in case['kws']] else 0
-
-
 def _ioapi_aug(case, obs, with_tflag=True):
     """TFLAG joins the compared variables: input rows TFLAG[:, 0, :] as a (TSTEP, DATE-TIME) variable of the case, the
     output rows as the observed variable"""
@@ -527,8 +519,7 @@ def coq_term(case, obs):
         if case is None:
             return None
     if case['kind'].startswith('ioapi'):
-        # inside the known-defect region the rebuilt TFLAG is not modelled: F covers the data variables there
-        case, obs = _ioapi_aug(case, obs, with_tflag=(_ioapi_region(case) == 0))
+        case, obs = _ioapi_aug(case, obs)
         obs = _ioapi_obs(case, obs)
     names = [d[0] for d in case['dims']]
     nd = len(names)
@@ -684,17 +675,16 @@ def _check_ioapi(case, obs):
     """data part of the IOAPI wrapper: every data variable is the orthogonal / zipped selection (float32 cells hold
     exact integers); dimension lengths agree wherever the dimension still exists"""
     if 'raises' in obs:
-        return dict(s_ok=False, region=_ioapi_region(case), why='IOAPI sliceDimensions raised %s: %s' % (obs.get('raises'), obs.get('msg', '')[:100]))
+        return dict(s_ok=False, region=0, why='IOAPI sliceDimensions raised %s: %s' % (obs.get('raises'), obs.get('msg', '')[:100]))
     why = []
     if obs.get('tflag') is None:
         why.append('TFLAG has no VAR column')
     if not obs.get('tflag_cols_same', False):
         why.append('TFLAG columns differ between variables')
-    reg = _ioapi_region(case)
     case, obs = _ioapi_aug(case, obs)
     exp = _expected(case)
     if exp is None:
-        return dict(s_ok=False, region=_ioapi_region(case), why='generator produced a malformed IOAPI case')
+        return dict(s_ok=False, region=0, why='generator produced a malformed IOAPI case')
     if 'TFLAG' in exp['vars']:
         # getTimes() of the result = the selected instants of the input
         import datetime
@@ -725,9 +715,7 @@ def _check_ioapi(case, obs):
         why.append('TFLAG not compared')
     if obs.get('cls') != 'ioapi_base':
         why.append('result class %s' % obs.get('cls'))
-    if any(not w.startswith(('TFLAG', 'getTimes()')) for w in why):
-        reg = 0      # only the TFLAG / getTimes() deviation is a known finding
-    return dict(s_ok=not why, region=reg, why='; '.join(why)[:600])
+    return dict(s_ok=not why, region=0, why='; '.join(why)[:600])
 
 
 def _check_strform(case, obs):
